@@ -288,51 +288,94 @@ def run_inprocess(smt2, timeout, ematch_only=False):
 
 
 def solve_text(smt2, timeout, workdir, tag, order=('z3-5.1', 'z3-4.8', 'cvc5'), first_timeout=None):
-    """returns dict(verdict, solver, time, details)"""
+    """returns dict(verdict, solver, time, details).
+    1. z3 5.1 in-process, E-matching only (<= 4 s): decides almost every VC of this engine in milliseconds;
+    2. if that does not answer unsat: z3 5.1 (default configuration, in-process) and the external back ends
+       (z3 4.8.12, cvc5) run concurrently; a definite answer of z3 5.1 ends the race, otherwise a sat of any back end
+       wins over an unsat of another (reported as undischarged)."""
+    import threading
     path = os.path.join(workdir, re.sub(r'[^A-Za-z0-9_.#\[\]-]', '_', tag)[:150] + '.smt2')
     with open(path, 'w') as f:
         f.write(smt2)
     details = {}
     verdict = 'unknown'
     winner = None
-    total = 0.0
+    t_begin = time.time()
     ft = first_timeout or timeout
     model = None
     rest = list(order)
-    if rest and rest[0] == 'z3-5.1':
+    use_inproc = bool(rest) and rest[0] == 'z3-5.1'
+    if use_inproc:
+        rest = rest[1:]
         res, dt, model = run_inprocess(smt2, min(ft, 4), ematch_only=True)
         details['z3-5.1/ematch'] = (res, round(dt, 3))
-        total += dt
-        if res != 'unsat':
-            res, dt, model = run_inprocess(smt2, ft)
-            details['z3-5.1'] = (res, round(dt, 3))
-            total += dt
-        if res in ('unsat', 'sat'):
+        if res == 'unsat':
             verdict, winner = res, 'z3-5.1'
-        rest = rest[1:]
-    if verdict == 'unknown' and rest:
-        # the other back ends run concurrently; the first definite answer wins
-        import threading
-        box = {}
+    if verdict == 'unknown':
         procs = {}
+        box = {}
 
         def work(name):
-            box[name] = run_solver(name, path, timeout)
-        ths = [threading.Thread(target=work, args=(n,)) for n in rest]
-        t1 = time.time()
+            t0 = time.time()
+            try:
+                p = subprocess.Popen(SOLVERS[name](path, timeout), stdout=subprocess.PIPE, stderr=subprocess.PIPE, text=True)
+                procs[name] = p
+                try:
+                    out, err = p.communicate(timeout=timeout + 5)
+                except subprocess.TimeoutExpired:
+                    p.kill()
+                    box[name] = ('timeout', time.time() - t0, '')
+                    return
+                lines = (out or '').strip().splitlines()
+                first = lines[0].strip() if lines else ''
+                if first not in ('sat', 'unsat', 'unknown'):
+                    low = ((out or '') + (err or '')).lower()
+                    first = 'error' if 'error' in low else ('timeout' if 'timeout' in low else 'unknown')
+                box[name] = (first, time.time() - t0, (out or '')[:2000])
+            except Exception as e:       # a back end that cannot be started never discharges anything
+                box[name] = ('error', time.time() - t0, str(e)[:300])
+        def work_inproc():
+            res_, dt_, model_ = run_inprocess(smt2, ft)
+            box['z3-5.1'] = (res_, dt_, model_)
+        names = list(rest)
+        ths = [threading.Thread(target=work, args=(n,), daemon=True) for n in rest]
+        if use_inproc:
+            names = ['z3-5.1'] + names
+            ths.append(threading.Thread(target=work_inproc, daemon=True))
         for t in ths:
             t.start()
-        for t in ths:
-            t.join()
-        total += time.time() - t1
-        for n in rest:
-            r_, dt_, out_ = box.get(n, ('unknown', 0, ''))
-            details[n] = (r_, round(dt_, 3))
-        for n in rest:
+        # the race ends when every back end has answered, on the first sat, or 2 s after the first unsat (the grace
+        # period lets a disagreeing back end speak up; a sat always wins)
+        first_unsat = None
+        while True:
+            done = [n for n in names if n in box]
+            if any(box[n][0] == 'sat' for n in done):
+                break
+            if len(done) == len(names):
+                break
+            if first_unsat is None and any(box[n][0] == 'unsat' for n in done):
+                first_unsat = time.time()
+            if first_unsat is not None and time.time() - first_unsat > 2.0:
+                break
+            if time.time() - t_begin > timeout + 12:
+                break
+            time.sleep(0.02)
+        for p in list(procs.values()):
+            try:
+                p.kill()
+            except Exception:
+                pass
+        for n in names:
+            r_ = box.get(n, ('unknown', 0, ''))
+            details[n] = (r_[0], round(r_[1], 3))
+            if n == 'z3-5.1' and r_[0] == 'sat':
+                model = r_[2]
+        for n in names:
             if details[n][0] == 'sat':
                 verdict, winner = 'sat', n
+                break
         if verdict == 'unknown':
-            for n in rest:
+            for n in names:
                 if details[n][0] == 'unsat':
                     verdict, winner = 'unsat', n
                     break
@@ -341,7 +384,7 @@ def solve_text(smt2, timeout, workdir, tag, order=('z3-5.1', 'z3-4.8', 'cvc5'), 
             os.unlink(path)
         except OSError:
             pass
-    return {'verdict': verdict, 'solver': winner, 'time': round(total, 3), 'details': details, 'path': path, 'model': model}
+    return {'verdict': verdict, 'solver': winner, 'time': round(time.time() - t_begin, 3), 'details': details, 'path': path, 'model': model}
 
 
 def gen_lemmas(world, contracts, externals, pkg):
